@@ -113,8 +113,18 @@ func plan(c *vf.Ctx) []task {
 		{"rec", baseCfg, 1000, 500},
 		{"wal", baseCfg, 200, 20},
 	}
+	// C07_ONLY=block,wal … restricts a run to some parts (used for the sensitivity experiments only)
+	only := map[string]bool{}
+	for _, p := range strings.Split(os.Getenv("C07_ONLY"), ",") {
+		if p != "" {
+			only[p] = true
+		}
+	}
 	var ts []task
 	for _, it := range items {
+		if len(only) > 0 && !only[it.part] {
+			continue
+		}
 		n := it.n * mul
 		for a := 0; a < n; a += it.batch {
 			b := a + it.batch
@@ -289,6 +299,9 @@ func main() {
 	}
 	missing := []string{}
 	for _, k := range required() {
+		if len(os.Getenv("C07_ONLY")) > 0 {
+			break // partial run: coverage requirements do not apply
+		}
 		if !seen[k] {
 			missing = append(missing, k)
 			c.Inconclusive("category-not-reached:"+k, 1)
